@@ -266,6 +266,12 @@ func (c *ColumnImage) UnmarshalJSON(data []byte) error {
 			actualValue = string(val)
 		case JDBCTypeBinary, JDBCTypeVarBinary, JDBCTypeLongVarBinary, JDBCTypeBit:
 			actualValue = value
+			// encoding/json writes []byte as base64 text: restore the bytes
+			if s, ok := value.(string); ok {
+				if val, decodeErr := base64.StdEncoding.DecodeString(s); decodeErr == nil {
+					actualValue = val
+				}
+			}
 		}
 	}
 	*c = ColumnImage{
